@@ -14,27 +14,29 @@ import (
 func init() { registry["C15"] = checkC15 }
 
 type cgCase struct {
-	Parents    map[string][]string `json:"parents"`
-	Shared     []string            `json:"shared"`
-	Alias      map[string]string   `json:"alias"`
-	Ty         string              `json:"ty"`
-	Wrap       string              `json:"wrap"`
-	Where      string              `json:"where"`
-	Layout     string              `json:"layout"`
-	Split      string              `json:"split"`
-	Target     string              `json:"target"`
-	Members    []string            `json:"members"`
-	MembersDev []string            `json:"membersdev"`
-	Decl       map[string][]string `json:"decl"`
+	Parents      map[string][]string `json:"parents"`
+	Shared       []string            `json:"shared"`
+	Alias        map[string]string   `json:"alias"`
+	Ty           string              `json:"ty"`
+	Wrap         string              `json:"wrap"`
+	Where        string              `json:"where"`
+	Layout       string              `json:"layout"`
+	Split        string              `json:"split"`
+	Target       string              `json:"target"`
+	Members      []string            `json:"members"`
+	MembersDev   []string            `json:"membersdev"`
+	MembersAfter []string            `json:"membersafter"`
+	Decl         map[string][]string `json:"decl"`
 }
 
 type cgData struct {
-	tc       *cgCase
-	files    map[string]string
-	fieldAt  map[string][2]string // "file:line" -> (class, field)
-	defStep  map[string]int       // field -> step of definition on v.<field>
-	compStep int
-	all      []string
+	tc        *cgCase
+	files     map[string]string
+	fieldAt   map[string][2]string // "file:line" -> (class, field)
+	defStep   map[string]int       // field -> step of definition on v.<field>
+	compStep2 int
+	compStep  int
+	all       []string
 }
 
 func cgBuild(id int, raw json.RawMessage) *Job {
@@ -99,6 +101,8 @@ func cgBuild(id int, raw json.RawMessage) *Job {
 		switch tc.Wrap {
 		case "array":
 			return t + "[]"
+		case "array2":
+			return t + "[][]"
 		case "dict":
 			return "table<string, " + t + ">"
 		}
@@ -119,6 +123,8 @@ func cgBuild(id int, raw json.RawMessage) *Job {
 	switch tc.Wrap {
 	case "array":
 		idx = "[1]"
+	case "array2":
+		idx = "[1][2]"
 	case "dict":
 		idx = `["k"]`
 	}
@@ -186,6 +192,15 @@ func cgBuild(id int, raw json.RawMessage) *Job {
 	pc.Steps = append(pc.Steps, proto.Step{M: "textDocument/completion",
 		P: json.RawMessage(fmt.Sprintf(`{"textDocument":{"uri":"file://$ROOT/comp.lua"},"position":{"line":%d,"character":%d},"context":{"triggerKind":2,"triggerCharacter":"."}}`, cl, len(typed)))})
 	d.compStep = len(pc.Steps) - 1
+	d.compStep2 = -1
+	if tc.Layout != "ABC" && tc.Split == "none" {
+		// second phase: the file that holds class KC alone is deleted and the deletion reported; the members are then
+		// those of the hierarchy without KC (ClassGraph.tla MembersAfter)
+		pc.Steps = append(pc.Steps, proto.Step{M: "fs.delete", Path: "types2.lua"}, watched("types2.lua", 3),
+			proto.Step{M: "textDocument/completion",
+				P: json.RawMessage(fmt.Sprintf(`{"textDocument":{"uri":"file://$ROOT/comp.lua"},"position":{"line":%d,"character":%d},"context":{"triggerKind":2,"triggerCharacter":"."}}`, cl, len(typed)))})
+		d.compStep2 = len(pc.Steps) - 1
+	}
 	return &Job{PC: pc, Data: d}
 }
 
@@ -257,6 +272,25 @@ func cgJudge(c *Ctx, j *Job, res *proto.Result) {
 		c.Rep.Deviation("Dev_SplitClassLocalDeclarationHidesOthers", fmt.Sprintf("%s: the members are those of the reference closure without the field of the split class's second declaration %v", desc0, d.tc.MembersDev), j.Raw)
 		return
 	}
+	if len(prob) == 0 && d.compStep2 >= 0 {
+		after := map[string]bool{}
+		for _, m := range d.tc.MembersAfter {
+			after[m] = true
+		}
+		labels, _ := compLabels(res.Steps[d.compStep2].Reply)
+		got := map[string]bool{}
+		for _, l := range labels {
+			got[l] = true
+		}
+		for _, f := range d.all {
+			if after[f] && !got[f] {
+				prob = append(prob, "after types2.lua (class KC) is deleted, member completion misses "+f)
+			}
+			if !after[f] && got[f] {
+				prob = append(prob, "after types2.lua (class KC) is deleted, member completion still offers "+f)
+			}
+		}
+	}
 	if len(prob) == 0 {
 		return
 	}
@@ -286,7 +320,7 @@ func checkC15(c *Ctx) {
 		"when several reachable classes declare the shared field, any of them is an acceptable definition target",
 		"members added by assignment through a variable of the class (documented extension) are not generated yet",
 	}
-	cfg := fmt.Sprintf("CONSTANTS\n  Classes = {\"KA\",\"KB\",\"KC\"}\n  Level = %q\nINIT Init\nNEXT Next\nINVARIANTS MembersMonotone SelfMember CycleSafe Emit\nCHECK_DEADLOCK FALSE\n", c.Tier)
+	cfg := fmt.Sprintf("CONSTANTS\n  Classes = {\"KA\",\"KB\",\"KC\"}\n  Level = %q\nINIT Init\nNEXT Next\nINVARIANTS MembersMonotone SelfMember CycleSafe DeleteShrinks Emit\nCHECK_DEADLOCK FALSE\n", c.Tier)
 	if c.Replay != "" {
 		raw, err := loadReplayCase(c.Replay)
 		if err != nil {
